@@ -7,6 +7,7 @@ const exportFile = `//go:build verifsim
 package pebble
 
 import (
+	"fmt"
 	"sync/atomic"
 	"unsafe"
 
@@ -61,13 +62,60 @@ func (i *Iterator) VerifsimPinnedFiles() map[uint64]bool {
 	return out
 }
 
+// VerifsimPinnedFiles returns the disk file numbers of the version a
+// file-only snapshot has pinned (empty before the transition). It reads the
+// field without the snapshot's mutex: callable from monitors that run while a
+// transition holds it (the value is only used by the single-baton simulator).
+func (es *EventuallyFileOnlySnapshot) VerifsimPinnedFiles() map[uint64]bool {
+	out := map[uint64]bool{}
+	verifsimVersionFiles(es.mu.vers, out)
+	return out
+}
+
+func verifsimDescribeVersion(v *manifest.Version) string {
+	if v == nil {
+		return "<nil>"
+	}
+	s := ""
+	for l := range v.Levels {
+		for f := range v.Levels[l].All() {
+			s += fmt.Sprintf(" L%d:%s(backing %s virtual=%v)", l, f.TableNum, f.TableBacking.DiskFileNum, f.Virtual)
+		}
+	}
+	return s
+}
+
+// VerifsimDescribe renders the version an iterator pins and the current one (diagnostics).
+func (i *Iterator) VerifsimDescribe(d *DB) string {
+	s := "iterator version:"
+	if i.readState != nil {
+		s += verifsimDescribeVersion(i.readState.current) + fmt.Sprintf(" [readState refs=%d]", i.readState.refcnt.Load())
+	}
+	if i.version != nil {
+		s += " pinned:" + verifsimDescribeVersion(i.version)
+	}
+	d.readState.RLock()
+	s += "; current version:" + verifsimDescribeVersion(d.readState.val.current)
+	d.readState.RUnlock()
+	return s
+}
+
 // VerifsimCurrentFiles returns the disk file numbers of the current version.
 func (d *DB) VerifsimCurrentFiles() map[uint64]bool {
 	out := map[uint64]bool{}
-	rs := d.loadReadState()
-	verifsimVersionFiles(rs.current, out)
-	rs.unref()
+	// No ref/unref here: the caller may be the file deleter itself, and
+	// dropping the last reference of a version from there would re-enter the
+	// obsolete-file bookkeeping.
+	d.readState.RLock()
+	verifsimVersionFiles(d.readState.val.current, out)
+	d.readState.RUnlock()
 	return out
+}
+
+// VerifsimMinUnflushedLogNumRaw is VerifsimMinUnflushedLogNum without taking
+// DB.mu (single-baton simulator only; the caller may already be under DB.mu).
+func (d *DB) VerifsimMinUnflushedLogNumRaw() uint64 {
+	return uint64(d.mu.versions.minUnflushedLogNum)
 }
 
 // VerifsimMinUnflushedLogNum returns the smallest WAL number still needed for recovery.
